@@ -325,4 +325,40 @@ CANARIES = {
             "cases": ["pos_diagonal"], "what": "parameter arrays stay writable after construction",
         },
     },
+    "C13": {
+        "stats_row_ignores_stage_offset": {
+            "module": "mici.samplers",
+            "old": "                        _update_chain_stats(\n                            sample_index + sampling_index_offset,",
+            "new": "                        _update_chain_stats(\n                            sample_index,",
+            "cases": ["configs/1", "configs/3", "inductive"], "what": "statistics of later stages overwrite the rows of the first stage",
+        },
+        "arrays_sized_for_warm_up_when_not_traced": {
+            "module": "mici.samplers",
+            "old": "        n_trace_iter = n_warm_up_iter + n_main_iter if trace_warm_up else n_main_iter",
+            "new": "        n_trace_iter = n_warm_up_iter + n_main_iter",
+            "cases": ["configs/1", "configs/2"], "what": "output arrays longer than the number of recorded iterations (fill values survive)",
+        },
+    },
+    "C14": {
+        "chains_share_one_stream": {
+            "module": "mici.samplers",
+            "old": "        return [default_rng(bit_generator.jumped(i)) for i in range(n_chain)]",
+            "new": "        return [default_rng(bit_generator.jumped(0)) for i in range(n_chain)]",
+            "cases": ["sched/2x2/0+2/fast"], "what": "all chains are driven by the same random sub-stream",
+        },
+    },
+    "C15": {
+        "sequential_continues_after_interrupt": {
+            "module": "mici.samplers",
+            "old": "        if isinstance(exception, KeyboardInterrupt):\n            break\n    return (*_collate_chain_outputs(chain_outputs), exception)",
+            "new": "        if isinstance(exception, KeyboardInterrupt):\n            pass\n    return (*_collate_chain_outputs(chain_outputs), exception)",
+            "cases": ["interrupt/p1/warmup/2+2"], "what": "remaining chains are still sampled after an interrupt",
+        },
+        "later_stages_started_after_interrupt": {
+            "module": "mici.samplers",
+            "old": "                    if isinstance(exception, KeyboardInterrupt):\n                        return MCMCSampleChainsOutputs(chain_states, traces, stats)",
+            "new": "                    if isinstance(exception, KeyboardInterrupt):\n                        pass",
+            "cases": ["interrupt/p1/warmup/2+2"], "what": "the main stage runs although warm-up was interrupted",
+        },
+    },
 }
